@@ -146,6 +146,11 @@ inductive Err (ε : Type)
   | merge (by_ : Plugin) (e : ε)        -- `return nil, err` after `result.apply`
   deriving Repr
 
+/-- the plugin whose answer ended the loop -/
+def Err.culprit {ε : Type} : Err ε → Plugin
+  | .veto p _ => p
+  | .merge p _ => p
+
 /-- everything observable about one pass over the plugin list -/
 structure Trace (ρ : Type) where
   attempted : List Plugin        -- calls made by the runtime, in order
@@ -196,14 +201,88 @@ def combine {ρ σ ο ε : Type} (M : Merger ρ σ ο ε) : σ → List (Plugin 
     | .error e => .error (p, e)
     | .ok acc' => combine M acc' rest
 
-/-! ## Variants of the loop that break a property (used only by `broken_*` witnesses in
-    Props/C07.lean to show the theorems are not vacuous about these points) -/
+/-! ## Specification-level readings of one pass (used in the theorem statements) -/
 
-/-- treats every error as the handler's own (a dead plugin vetoes the request) -/
-def effOutNoFatal {ρ : Type} (T : Nat) (p : Plugin) (c : Call ρ) : Outcome ρ × Nat :=
-  match effOut T p c with
-  | (.fatal _, d) => (.handlerErr [], d)
-  | x => x
+/-- the plugins subscribed to `ev`, in list order -/
+def subscribers {ρ : Type} (ev : EventNo) (pcs : List (Plugin × Call ρ)) : List Plugin :=
+  (pcs.map (·.1)).filter (subscribed ev)
+
+/-- the responses of the subscribed plugins whose call succeeds, in list order -/
+def okResponses {ρ : Type} (T : Nat) (ev : EventNo) : List (Plugin × Call ρ) → List (Plugin × ρ)
+  | [] => []
+  | (p, c) :: rest =>
+    if subscribed ev p then
+      match (effOut T p c).1 with
+      | .ok r => (p, r) :: okResponses T ev rest
+      | _ => okResponses T ev rest
+    else okResponses T ev rest
+
+def isVeto {ρ : Type} : Outcome ρ → Bool
+  | .handlerErr _ => true
+  | _ => false
+
+def isFatal {ρ : Type} : Outcome ρ → Bool
+  | .fatal _ => true
+  | _ => false
+
+/-- some subscribed plugin answers with its own error -/
+def hasVeto {ρ : Type} (T : Nat) (ev : EventNo) (pcs : List (Plugin × Call ρ)) : Bool :=
+  pcs.any fun pc => subscribed ev pc.1 && isVeto (effOut T pc.1 pc.2).1
+
+/-- the subscribed plugins up to and including the first one that answers with its own error -/
+def upToVeto {ρ : Type} (T : Nat) (ev : EventNo) : List (Plugin × Call ρ) → List Plugin
+  | [] => []
+  | (p, c) :: rest =>
+    if subscribed ev p then
+      if isVeto (effOut T p c).1 then [p] else p :: upToVeto T ev rest
+    else upToVeto T ev rest
+
+/-! ## Classification of what a call returns (plugin.go `isFatalError`) -/
+
+/-- the errors `p.impl.X(ctx, req)` can return, by the way they arise -/
+inductive CallErr
+  | ttrpcClosed        -- ttrpc.ErrClosed: connection closed / reset / EOF as ttRPC reports it
+  | serverClosed       -- ttrpc.ErrServerClosed
+  | protocol           -- ttrpc.ErrProtocol: unexpected message type
+  | deadline           -- context.DeadlineExceeded: no answer within the request timeout
+  | status (msg : Str) -- an rpc status error: what the plugin's handler returned
+  | canceled           -- context.Canceled: the CALLER gave up
+  | undecodable        -- the reply does not decode (protobuf error from the client's Unmarshal)
+  | truncatedFrame     -- io.ErrUnexpectedEOF from the multiplexer: connection cut inside a frame
+  deriving DecidableEq, Repr
+
+/-- `isFatalError` as it stands in plugin.go -/
+def isFatalError : CallErr → Option Fatal
+  | .ttrpcClosed => some .closed
+  | .serverClosed => some .serverClosed
+  | .protocol => some .protocol
+  | .deadline => some .timeout
+  | _ => none
+
+/-- `isFatalError` with the repair of docs/fixes/C07-1.patch: a reply that does not decode and
+    a frame cut short are failures of the plugin's connection too -/
+def isFatalErrorFixed : CallErr → Option Fatal
+  | .undecodable => some .protocol
+  | .truncatedFrame => some .closed
+  | e => isFatalError e
+
+def errText : CallErr → Str
+  | .status m => m
+  | _ => []
+
+/-- from the value a call returns to the outcome the loop acts on -/
+def classify {ρ : Type} (fatal : CallErr → Option Fatal) : Except CallErr ρ → Outcome ρ
+  | .ok r => .ok r
+  | .error e => match fatal e with
+    | some f => .fatal f
+    | none => .handlerErr (errText e)
+
+/-- the errors that mean "the plugin disconnected, broke the protocol or did not answer in
+    time" — everything except the handler's own error and the caller's cancellation -/
+def pluginFailure : CallErr → Bool
+  | .status _ => false
+  | .canceled => false
+  | _ => true
 
 /-! ## Concurrent callers: the adaptation mutex
 
